@@ -73,7 +73,9 @@ def _call(rng, size=None):
     if r < 0.3:
         op = {'op': 'send_text', 'text': _text_of_len(rng, size)}
     elif r < 0.55:
-        op = {'op': 'send_binary', 'hex': S.rand_bytes(rng, size).hex()}
+        data = S.far_repeat(rng, max(size, rng.choice([700, 3000, 40000]))) \
+            if rng.random() < 0.25 else S.rand_bytes(rng, size)
+        op = {'op': 'send_binary', 'hex': data.hex()}
     elif r < 0.62:
         obj = rng.choice([{'a': 1, 'b': [1, 2, {'c': None}]}, [1, 2, 3], 'str',
                           5, None, {'ü': 'é€', 'k': 'x' * (size % 500)}])
@@ -123,7 +125,7 @@ def make_case(family, i, rng, tier):
     negotiated = rng.random() < 0.4
     case = {'negotiated': negotiated,
             'cnct': rng.random() < 0.5,
-            'cw': rng.choice([8, 9, 12, 15]),
+            'cw': rng.choice([8, 9, 10, 12, 15]),
             'mask': rng.choice(['prng', 'prng', 'zero', 'ones', 'payload'])}
     batches = {}
     if family == 'boundary':
